@@ -41,12 +41,12 @@ CHECKS = {
     'cmd/cache/file.go': ['C13', 'C14'],
     'cmd/cache/header.go': ['C13', 'C14'],
     'cmd/gts/io.go': ['C14', 'C13', 'C01'],
-    'cmd/gts/delete.go': ['C03', 'C15', 'C14'], 'cmd/gts/extract.go': ['C03', 'C08', 'C15', 'C14'],
-    'cmd/gts/split.go': ['C03', 'C04', 'C15', 'C14'], 'cmd/gts/rotate.go': ['C04', 'C15', 'C14'],
-    'cmd/gts/insert.go': ['C02', 'C15', 'C14'], 'cmd/gts/infix.go': ['C02', 'C15', 'C14'],
-    'cmd/gts/reverse.go': ['C05', 'C14'], 'cmd/gts/complement.go': ['C05', 'C14'],
-    'cmd/gts/repair.go': ['C12', 'C14'], 'cmd/gts/join.go': ['C12', 'C14'],
-    'cmd/gts/search.go': ['C18', 'C14'], 'cmd/gts/select.go': ['C19', 'C14'],
+    'cmd/gts/delete.go': ['C03', 'C15', 'C14', 'C17'], 'cmd/gts/extract.go': ['C03', 'C08', 'C15', 'C14', 'C17'],
+    'cmd/gts/split.go': ['C03', 'C04', 'C15', 'C14', 'C17'], 'cmd/gts/rotate.go': ['C04', 'C15', 'C14', 'C17'],
+    'cmd/gts/insert.go': ['C02', 'C15', 'C14', 'C17'], 'cmd/gts/infix.go': ['C02', 'C15', 'C14', 'C17'],
+    'cmd/gts/reverse.go': ['C05', 'C14', 'C17'], 'cmd/gts/complement.go': ['C05', 'C14', 'C17'],
+    'cmd/gts/repair.go': ['C12', 'C14', 'C17'], 'cmd/gts/join.go': ['C12', 'C14', 'C17'],
+    'cmd/gts/search.go': ['C18', 'C14', 'C17'], 'cmd/gts/select.go': ['C19', 'C14', 'C17'],
     'cmd/gts/clear.go': ['C17', 'C14', 'C01'], 'cmd/gts/sort.go': ['C14', 'C17'], 'cmd/gts/pick.go': ['C14', 'C17'],
 }
 
